@@ -210,6 +210,42 @@ def generic_pos(n, x, y):
     return (C_GVAL(s) == exp(ident_k, g_val, ident_v) and C_GKEY(s) == exp(g_key, ident_v, ident_v) and C_GEL(s) == exp(ident_k, ident_v, g_el)
             and C_GALL(s) == exp(g_key, g_val, g_el) and s == snap)
 
+# destination whose constructor parameters are named differently from its fields (attrs alias= / private attribute), and link_constant factories
+import collections, itertools as _it
+_counter = _it.count(1)
+def next_serial(): return next(_counter)
+@dataclasses.dataclass
+class DFac:
+    a: int
+    serial: int
+    q: Any
+    tags: list
+C_FAC = R.get_converter(Src, DFac, recipe=[link_constant(P[DFac].serial, factory=next_serial), link_constant(P[DFac].q, factory=collections.deque), link_constant(P[DFac].tags, factory=list)])
+@attr.s(auto_attribs=True, kw_only=True)
+class FD_AL:
+    a: int
+    b: int = attr.ib(alias="bee")                      # constructor parameter names differ from the field ids
+    _z: int = attr.ib()
+    def __eq__(self, o): return type(o) is FD_AL and (o.a, o.b, o._z) == (self.a, self.b, self._z)
+@dataclasses.dataclass
+class S2:
+    a: int
+    b: int
+    c: int
+C_ALIAS2 = R.get_converter(S2, FD_AL, recipe=[link(P[S2].c, P[FD_AL]._z)])
+C_ALIAS_CONST2 = R.get_converter(S2, FD_AL, recipe=[link_constant(P[FD_AL]._z, value=5), link(P[S2].c, P[FD_AL].b)])
+def alias_dest(a, bb, c):
+    s2 = S2(a, bb, c)
+    return C_ALIAS2(s2) == FD_AL(a=a, bee=bb, z=c) and C_ALIAS_CONST2(s2) == FD_AL(a=a, bee=c, z=5)
+def factories_per_call(a, b, c):
+    src = mk_src(a, b, c)
+    o1, o2, o3 = C_FAC(src), C_FAC(src), C_FAC(src)
+    if not (o1.serial < o2.serial < o3.serial and o2.serial == o1.serial + 1): return False          # the factory runs once per conversion
+    if o1.q is o2.q or type(o1.q) is not collections.deque or o1.tags is o2.tags: return False
+    o1.q.append(1); o1.tags.append(1)
+    o4 = C_FAC(src)
+    return len(o4.q) == 0 and o4.tags == [] and o4.a == a
+
 SIG_OK = (inspect.signature(conv_param) == inspect.signature(stub_sig) and conv_param.__name__ == "conv_param")
 '''
 
@@ -451,6 +487,10 @@ def build(tier, seed):
          bounds="List[int]->List[Optional[int]], Set[bool]->Set[int], List[List[int]]->List[List[Any]], Dict[str,int]->Dict[str,Optional[int]]; results share no container with the source")
     m.ob("generic_positions", "n: int, x: int, y: int", "return generic_pos(n, x, y)", pre=["0 <= n <= 2"], timeout=tmo, family=fam,
          bounds="coercers aimed at dict keys / dict values / list elements by generic_arg position, also inside a nested dict; container length <= 2, symbolic ints")
+    m.ob("alias_destination", "a: int, bb: int, c: int", "return alias_dest(a, bb, c)", timeout=tmo, family=fam,
+         bounds="attrs destination with alias= and a private attribute (keyword-only): arguments are passed under the parameter names; symbolic ints")
+    m.ob("constant_factories_per_call", "a: int, b: str, c: int", "return factories_per_call(a, b, c)", pre=["len(b) <= 1"], timeout=tmo, family=fam,
+         bounds="link_constant(factory=...) with a counter, collections.deque and list: evaluated once per conversion, results share nothing; 4 conversions")
     m.ob("signature", "x: int", "return SIG_OK", timeout=30, family=fam, bounds="impl_converter preserves the stub's signature")
     mf = Module("c13_family").pre(FAMILY)
     mf.ob("family_creation", "x: int", "return not CERR", timeout=30, family="converter program family", bounds="creation of every program either succeeds or is refused with ProviderNotFoundError")
